@@ -155,7 +155,7 @@ def build_cases(ctx, rng):
         goals = [g for g in goals if not pg.is_floundering_prone(g)]
         for sv in (pg.SLG, pg.REC):
             cases.append(Case("frag", p, pg.to_text(p), goals, [pg.goal_text(g) for g in goals], sv, "Fresh"))
-    for _ in range(ctx.n(50, 1200)):
+    for _ in range(ctx.n(50, 500)):
         p = pg.gen_program(rng)
         gg = pg.GoalGen(rng, p)
         goals = [g for g in gg.goals(2, 2, 2) if not pg.is_floundering_prone(g)]
@@ -164,7 +164,7 @@ def build_cases(ctx, rng):
         mode = "History" if rng.random() < 0.3 else "Fresh"
         cases.append(Case("frag", p, pg.to_text(p), goals, [pg.goal_text(g) for g in goals], sv, mode))
     from checks import c07
-    for _ in range(ctx.n(14, 300)):
+    for _ in range(ctx.n(14, 120)):
         p = ag.gen_program(rng)
         gs = c07.make_goals(rng, p, 5)
         sv = rng.choice([pg.SLG, pg.REC])
@@ -305,7 +305,7 @@ def run(ctx):
         defs.setdefault("P%d" % ci, ("program", pg.to_model(c.prog)))
         exprs.append((["P%d" % ci], "N.add (if f16_class P%d %s then 1%%N else 0%%N) (if f1_class P%d %s then 2%%N else 0%%N)" % (ci, sx.to_coq(q), ci, sx.to_coq(q))))
         emeta.append(("class", k, None))
-    codes, fail = logic.coq_codes(ctx.work, "c23", defs, exprs, shard=max(12, len(exprs) // 14 + 1), imports=IMPORTS, timeout=1200)
+    codes, fail = logic.coq_codes(ctx.work, "c23", defs, exprs, shard=max(16, len(exprs) // 8 + 1), imports=IMPORTS, timeout=1200)
     if fail:
         raise core.CheckFailure("coq evaluation failed: %s" % (fail[0],))
     for (what, a, b), code in zip(emeta, codes):
